@@ -142,6 +142,16 @@ Definition order_ok (o : opts) (l : list stage) : bool :=
   && Bool.eqb (present FunctionPullbacks l) (o_pullbacks o)
   && Bool.eqb (present (GeometryLowering false) l || present (GeometryLowering true) l) (o_geometry o)
   && implb (o_remove_ct o) (present RemoveComponentTensors l)
+  (* coordinate (shape) derivatives are expanded only after every geometric quantity has been lowered and
+     every other derivative expanded: a quantity that is still opaque would be differentiated to zero *)
+  && all_before (GeometryLowering true) CoordinateDerivatives l
+  && all_before (GeometryLowering false) CoordinateDerivatives l
+  && all_before ApplyDerivatives CoordinateDerivatives l
+  && all_before CancelJacobianProducts CoordinateDerivatives l
+  && all_before FunctionPullbacks CoordinateDerivatives l
+  && all_before IntegralScaling CoordinateDerivatives l
+  && present CoordinateDerivatives l && present GroupIntegrals l && present BuildIntegralData l
+  && all_before GroupIntegrals AttachDegrees l && all_before GroupIntegrals BuildIntegralData l
   (* restrictions and the arity check see the final integrands *)
   && all_before BuildIntegralData (ApplyRestrictions true) l && all_before BuildIntegralData (ApplyRestrictions false) l
   && implb (o_restr o) (present (ApplyRestrictions (o_default_restr o)) l)
